@@ -59,6 +59,24 @@ func gen(r *verifsim.Rng, tier string) (any, hx.Sched) {
 	if r.Intn(10) == 0 {
 		np = 4 + r.Intn(3)
 	}
+	if r.Intn(50) == 0 {
+		// huge: thousands of values buffered at once in a very large buffer (the
+		// consumer sleeps first), capacities around and between powers of two
+		w.Level = "L1"
+		w.Cap = verifsim.Pick(r, []int{1000, 1024, 1025, 1500, 2047, 2048, 3000, 4097, 5000, 70000})
+		n := verifsim.Pick(r, []int{1030, 1100, 2100, 4200})
+		w.Producers = []int{n}
+		if r.Intn(3) == 0 {
+			w.Producers = []int{n / 2, n / 2}
+		}
+		w.Consumers = []int{-1}
+		w.Closers, w.CloseAfter = 1, true
+		w.SleepMask = 1 << uint(len(w.Producers)) // the consumer naps while the buffer fills
+		s := hx.SwarmSched(r, focus)
+		s.MeanGap = verifsim.Pick(r, []int64{30, 100, 1000})
+		s.MaxSteps = 1000000
+		return w, s
+	}
 	if r.Intn(25) == 0 {
 		// a long stream: state that only builds up after hundreds of operations
 		w.Level = "L1"
